@@ -35,11 +35,11 @@ PROPS = {
 }
 # cfg suffix -> property whose predicates TLC must report violated
 DEVIATIONS = {
-    "SubChange": "C12", "AssignAllMembers": "C12", "SyncLookupUnlocked": "C12",
-    "HbNoGen": "C13", "SyncNoGen": "C13", "CommitNoGen": "C13", "HbWriteUnlocked": "C13",
-    "JoinOkEarly": "C14",
-    "RestoreDropsAsg": "C15", "RestoreGenZero": "C15", "SyncRefusesIdle": "C15", "CleanupWriteUnlocked": "C15",
-    "HbRefresh": "C43", "ExpireIgnoresHb": "C43", "NoLaggerDrop": "C43", "NoExpire": "C43", "LaggerSkippedOnExpiry": "C43",
+    "SubChange": "C12", "AssignAllMembers": "C12", "SyncLookupUnlocked": "C12", "RestoreSkipsExpired": "C12",
+    "HbNoGen": "C13", "SyncNoGen": "C13", "CommitNoGen": "C13", "HbWriteUnlocked": "C13", "JoinIgnoresLoadError": "C13",
+    "JoinOkEarly": "C14", "MalformedJoinGhost": "C14", "JoinPutFailDropsMember": "C14",
+    "RestoreDropsAsg": "C15", "RestoreGenZero": "C15", "SyncRefusesIdle": "C15", "CleanupWriteUnlocked": "C15", "JoinNewSkipsLoad": "C15",
+    "HbRefresh": "C43", "ExpireIgnoresHb": "C43", "NoLaggerDrop": "C43", "NoExpire": "C43", "LaggerSkippedOnExpiry": "C43", "HbCoalesce": "C43",
 }
 DEV_REB = {"LaggerSkippedOnExpiry": 3}   # rebalance timeout of the deviation config when it is not 2 (see gen_cfg.py)
 NP = {"NP21": {"t1": 2, "t2": 1}, "NP32": {"t1": 3, "t2": 2}}
@@ -68,18 +68,20 @@ def split(rows):
     return runs
 
 
-def sched(np, steps, reb=2):
-    return {"sess": 2, "reb": reb, "nparts": NP[np], "np": np, "steps": steps}
+def sched(np, steps, reb=2, unit=1000):
+    """unit = milliseconds of virtual time per model tick (= cleanup interval); all timeouts are in ticks"""
+    return {"sess": 2, "reb": reb, "nparts": NP[np], "np": np, "steps": steps, "unit_ms": unit}
 
 
-def trace_cfg(np, reb=2):
-    return open(os.path.join(DIR, "Trace_Group.cfg")).read().replace("NParts <- NP21", "NParts <- " + np).replace("RebT = 2", "RebT = %d" % reb)
+def trace_cfg(np, reb=2, unit=1000):
+    t = open(os.path.join(DIR, "Trace_Group.cfg")).read().replace("NParts <- NP21", "NParts <- " + np).replace("RebT = 2", "RebT = %d" % reb)
+    return t.replace("DefT = 30", "DefT = %d" % (30000 // unit))   # the 30 s defaults, in ticks
 
 
 def deviation_schedules(ctx, names):
     def one(name):
         d = T.stage(ctx, DIR, "dev-" + name)
-        h, r = T.counterexample_hist(ctx, d, "MC_Group.tla", "Dev_Group_%s.cfg" % name, timeout=900, workers=2)
+        h, r = T.counterexample_hist(ctx, d, "MC_Group.tla", "Dev_Group_%s.cfg" % name, timeout=900, workers=1)   # one worker: strict breadth-first search, the shortest counterexample, the same one in every run
         want = DEVIATIONS[name]
         if h is None or not any(v.startswith(want + "_") for v in r.violated):
             raise Broken("deviation %s no longer violates a %s predicate in the model (vacuous deviation): %s" % (name, want, r.violated))
@@ -137,10 +139,14 @@ def pipeline(ctx, prop):
         if last.get("c"):
             for other in sorted({x["c"] for x in h if x.get("c")} - {last["c"]}):
                 scheds.append(sched("NP21", h[:-1] + [dict(last, c=other)], DEV_REB.get(name, 2))); labels.append("dev:%s~%s" % (name, other))
+        # the timing deviations once more with a 500 ms tick: consecutive ticks are then less than a second apart
+        if DEVIATIONS[name] == "C43":
+            scheds.append(sched("NP21", h, DEV_REB.get(name, 2), 500)); labels.append("dev:%s@500ms" % name)
     sims = simulations(ctx, quick)
-    for cfg, h in sims:
-        scheds.append(sched("NP32", h)); labels.append("sim:" + cfg.split(".")[0])
-    ctx.log("%d schedules (%d deviation counterexamples + %d member variants, %d simulated)" % (len(scheds), len(devs), len(scheds) - len(devs) - len(sims), len(sims)))
+    for k, (cfg, h) in enumerate(sims):
+        half = "clock" in cfg and k % 2 == 1     # every other clock-heavy simulation runs on the 500 ms tick
+        scheds.append(sched("NP32", h, 2, 500 if half else 1000)); labels.append("sim:" + cfg.split(".")[0] + ("@500ms" if half else ""))
+    ctx.log("%d schedules (%d deviation counterexamples + %d member/500ms variants, %d simulated)" % (len(scheds), len(devs), len(scheds) - len(devs) - len(sims), len(sims)))
     rows = harness(ctx, scheds, "main")
     runs = split(rows)
     if len(runs) != len(scheds):
@@ -183,17 +189,17 @@ def check(ctx, prop):
         ctx.log("predicates of other properties false in this run (reported by their own checks): %s" % json.dumps(other, sort_keys=True))
     # layer C per partition-count configuration
     conf = {"accepted": 0, "rejected": 0, "first_rejection": None}
-    for np, reb in sorted({(s["np"], s["reb"]) for s in scheds}):
-        idxs = [i for i, s in enumerate(scheds) if (s["np"], s["reb"]) == (np, reb)]
+    for np, reb, unit in sorted({(s["np"], s["reb"], s["unit_ms"]) for s in scheds}):
+        idxs = [i for i, s in enumerate(scheds) if (s["np"], s["reb"], s["unit_ms"]) == (np, reb, unit)]
         sub = [r for i in idxs for r in runs[i]]
-        reached, total, _ = layers.conform(ctx, DIR, "Trace_Group.tla", "Trace_Group.cfg", sub, name="conf-%s-%d" % (np, reb), cfg_text=trace_cfg(np, reb), timeout=1800)
+        reached, total, _ = layers.conform(ctx, DIR, "Trace_Group.tla", "Trace_Group.cfg", sub, name="conf-%s-%d-%d" % (np, reb, unit), cfg_text=trace_cfg(np, reb, unit), timeout=1800)
         if reached == total:
             conf["accepted"] += len(idxs)
         else:
             conf["rejected"] += 1
             if conf["first_rejection"] is None:
                 bad = sub[reached] if reached < len(sub) else None
-                conf["first_rejection"] = {"np": np, "reb": reb, "line": {k2: v for k2, v in (bad or {}).items() if k2 != "rst"}}
+                conf["first_rejection"] = {"np": np, "reb": reb, "unit_ms": unit, "line": {k2: v for k2, v in (bad or {}).items() if k2 != "rst"}}
     st = self_test(ctx, prop, runs)
     level = "model_checking"
     drift = conf["rejected"] > 0
@@ -270,7 +276,7 @@ def self_test(ctx, prop, runs):
     bad = copy.deepcopy(run)
     bad[-1]["st"]["gen"] += 1
     np = "NP21" if len(bad[0]["tps"]) == 3 else "NP32"
-    reached, total, _ = layers.conform(ctx, DIR, "Trace_Group.tla", "Trace_Group.cfg", bad, name="selfC", cfg_text=trace_cfg(np, bad[0]["reb"]))
+    reached, total, _ = layers.conform(ctx, DIR, "Trace_Group.tla", "Trace_Group.cfg", bad, name="selfC", cfg_text=trace_cfg(np, bad[0]["reb"], bad[0]["unit_ms"]))
     if reached == total:
         raise Broken("binding self-test: conformance layer accepted a corrupted generation")
     return {"observation_layer_flags_corrupted_field": inv, "conformance_layer_rejects_corrupted_state": True}
